@@ -216,7 +216,7 @@ def run(ctx):
             if fn.startswith("trace_rnd_") and fn.endswith(".ndjson"):
                 for l in open(os.path.join(ctx.work, fn)):
                     ev = json.loads(l)
-                    if ev["a"] == "freeze" and ev["r"] == ["ok"]:
+                    if ev["a"] == "freeze" and ev["r"] == ["ok"] and all(isinstance(x[1], int) and x[1] >= 0 for x in ev["m"]):
                         key = json.dumps(ev["m"])
                         if key in frz and frz[key]["hash"] != ev["hash"]:
                             ctx.violation("same contents, different hash in recorded traces: %s" % key, {"kind": "canon_trace", "m": ev["m"]})
